@@ -176,4 +176,20 @@ Theorem C06_decided_counters_do_not_read_incoming_layout :
    is_first_break d = false -> f_nl f = f_nl f').
 Proof. exact olf_phase1_counters_read. Qed.
 
+(* END TO END: two inputs whose tokens agree (content and raw kind) and whose layouts agree in the number of line breaks per gap and
+   in the spaces where the spacing rule reads them (the F4 gap class) format identically - whatever the TEXT of the whitespace is (tabs,
+   CR, U+3000, indentation) - without asm and ignored tokens; both wrapper phases, every configuration.  Exchanging a space and a
+   single line break is covered for decided tokens by C06_decided_counters_do_not_read_incoming_layout; tokens the wrapper does not
+   decide keep their breaks (F42), so that half stays with the metamorphic oracle *)
+From PasfmtVerif Require Import Model.Format Proofs.FormatProofs Proofs.FormatTotalProofs Proofs.FormatTabsProofs Proofs.FormatWsProofs Proofs.FormatCrlfProofs Proofs.FormatRelayoutProofs Proofs.FormatFragmentProofs.
+Theorem C06_format_relayout :
+  forall (alnum : bytes -> bool) (cfg : fconfig) (s s' : bytes) (segs segs' : list seg),
+  lex_segments s = Some segs ->
+  lex_segments s' = Some segs' ->
+  Forall2 seg_sim segs segs' ->
+  ParserGrammarWsnlProofs.no_asm (map seg_ty segs) ->
+  (forall m : bool, In m (fm_marks segs) -> m = false) ->
+  lay_similar segs segs' -> format_model alnum cfg s' = format_model alnum cfg s.
+Proof. exact format_relayout. Qed.
+
 
